@@ -124,3 +124,26 @@ package lexer
 //@ ensures [consumed] s.current == len(s.source) && s.line == 1 + nl(s.source, len(s.source))
 //@ ensures [eof] len(result) >= 1 && result[len(result)-1].Type == token.EOF && result[len(result)-1].Line == 1 + nl(s.source, len(s.source))
 //@ ensures [oneeof] forall(k, 0, len(result)-1, result[k].Type != token.EOF && 1 <= result[k].Line && result[k].Line <= 1 + nl(s.source, len(s.source)))
+
+// small helpers: always inlined at their call sites; on their own they are checked under the scanner's bounds
+//@ func (s *Scanner) isAtEnd [C07]
+//@ inline
+//@ requires [scanner] s != nil
+//@ func (s *Scanner) peek [C07]
+//@ inline
+//@ requires [scanner] s != nil && 0 <= s.current
+//@ func (s *Scanner) peekNext [C07]
+//@ inline
+//@ requires [scanner] s != nil && 0 <= s.current
+//@ func (s *Scanner) match [C07]
+//@ inline
+//@ requires [scanner] s != nil && 0 <= s.current
+//@ func (s *Scanner) advance [C07]
+//@ inline
+//@ requires [scanner] s != nil && 0 <= s.current && s.current < len(s.source)
+//@ func (s *Scanner) addToken [C07]
+//@ inline
+//@ requires [scanner] s != nil && 0 <= s.start && s.start <= s.current && s.current <= len(s.source)
+//@ func (s *Scanner) AddToken [C07,C16]
+//@ inline
+//@ requires [scanner] s != nil && 0 <= s.start && s.start <= s.current && s.current <= len(s.source) && canon(literal)
